@@ -20,6 +20,7 @@ pub mod c13;
 pub mod c15;
 pub mod c16;
 pub mod c18;
+pub mod hist;
 pub mod replay;
 pub mod sib;
 
@@ -56,6 +57,7 @@ pub fn dispatch(ctx: &Ctx) -> StageOut {
         "c15" => c15::run(ctx),
         "c16" => c16::run(ctx),
         "c18" => c18::run(ctx),
+        "hist" => hist::run(ctx),
         "advgen" => c18::run_advgen(ctx),
         "sibsearch" => sib::run(ctx),
         "rareseeds" => common::rareseeds_stage(ctx),
